@@ -3,6 +3,7 @@
 import glob, json, os, re
 V = os.path.dirname(os.path.dirname(os.path.abspath(__file__)))
 rows = []
+n_conf = 0
 for d in sorted(glob.glob(V + "/seeded/*/meta.json")):
     m = json.load(open(d))
     sid = os.path.basename(os.path.dirname(d))
@@ -12,20 +13,27 @@ for d in sorted(glob.glob(V + "/seeded/*/meta.json")):
     for er in m.get("earlier_check_runs", []):
         for k, v in er.get("checks_on_patched_tree", {}).items():
             first.setdefault(k, v)
-    det = ", ".join("%s %s (%s, %.0f s)" % (k, "**detects**" if v.get("detected") else "silent", v.get("tier", "quick"), v.get("wall_s", 0)) for k, v in sorted(checks.items()))
+    det = ", ".join("%s %s (%.0f s)" % (k, "**detects**" if v.get("detected") else "silent", v.get("wall_s", 0)) for k, v in sorted(checks.items()))
     missed = [k for k, v in first.items() if not v.get("detected") and checks.get(k, {}).get("detected")]
     if missed:
-        det += "; **first version of %s did not report it** (%s) -- strengthened since" % (", ".join(missed), "; ".join("machinery error" if "MACHINERY" in first[k].get("output", "") else "silent" for k in missed))
+        det += "; **the %s of the time did not report it** (%s) -- strengthened since" % (", ".join(missed), "; ".join("machinery error" if "MACHINERY" in first[k].get("output", "") else "silent" for k in missed))
+    rc = m.get("rechecks") or []
+    if rc:
+        last = rc[-1]
+        det += "; regression run at %s: %s" % (last.get("verif_commit"), ", ".join("%s %s" % (k, "detects" if v.get("detected") else "SILENT") for k, v in sorted(last.get("checks", {}).items())))
     summ = (m.get("summary") or "").strip().replace("\n", " ").replace("|", "/")
-    if len(summ) > 230:
-        summ = summ[:227] + "..."
+    if len(summ) > 200:
+        summ = summ[:197] + "..."
     need = (m.get("needs_to_manifest") or "").strip().replace("\n", " ").replace("|", "/")
-    if len(need) > 200:
-        need = need[:197] + "..."
+    if len(need) > 170:
+        need = need[:167] + "..."
     ok = "yes" if c.get("confirmed") else "NO"
+    n_conf += 1 if c.get("confirmed") else 0
     note = (m.get("note") or "").replace("|", "/")
-    rows.append("| %s | %s | %s | %s | %s |%s" % (sid, summ, need, ok, det, (" " + note) if note else ""))
-table = "| id | change (author's summary, abridged) | needs, to manifest | confirmed (builds both ways, 91/91 tests, demo fails with / passes without) | checks run against the patched tree |\n|----|----|----|----|----|\n" + "\n".join(rows)
+    if note:
+        det += ". " + note
+    rows.append("| %s | %s | %s | %s | %s |" % (sid, summ, need, ok, det))
+table = "| id | change (author's summary, abridged) | needs, to manifest | confirmed (builds both ways, 91/91 tests, demo fails with / passes without) | checks run against the patched tree (quick tier) |\n|----|----|----|----|----|\n" + "\n".join(rows)
 p = V + "/DESIGN.md"
 s = open(p).read()
 begin, end = "<!-- SEEDED-TABLE-BEGIN -->", "<!-- SEEDED-TABLE-END -->"
@@ -35,4 +43,4 @@ if begin in s:
 else:
     s = s.replace("SEEDED-TABLE-PLACEHOLDER", block)
 open(p, "w").write(s)
-print("rows:", len(rows))
+print("rows:", len(rows), "confirmed:", n_conf)
